@@ -261,5 +261,6 @@ Result == CASE w = "cont" -> s.out [] w = "rsrc" -> s.ids [] w = "pages" -> s.ou
 EmitInv ==
     (Emit /\ s.pc \in Final) =>
         PrintT(<<"REPLAY", ToJson([sc |-> sc, doc |-> doc, w |-> w, arg |-> arg, pc |-> s.pc, cls |-> s.cls,
-                                   res |-> Result, steps |-> steps, fam |-> fam, len |-> len, md |-> md])>>)
+                                   res |-> Result, steps |-> steps, fam |-> fam, len |-> len, md |-> md,
+                                   scaled |-> (DerefLimit # 128)])>>)      \* limits scaled down: chain outcomes are the scale model's
 =============================================================================
